@@ -2,6 +2,7 @@ import HavocVerif.Driver.C02
 import HavocVerif.Driver.C03
 import HavocVerif.Driver.C04
 import HavocVerif.Driver.C05
+import HavocVerif.Driver.C08
 /-
   Line-protocol driver.  `driver <property> < ops.txt` prints one verdict per
   input line, prefixed with the 1-based line number.  A line `reset` starts a
@@ -22,6 +23,7 @@ def stepperFor (prop : String) : Option Stepper :=
   | "C03" => some (stateless DriverC03.step)
   | "C04" => some ⟨DriverC04.St, {}, DriverC04.step⟩
   | "C05" => some ⟨DriverC05.St, {}, DriverC05.step⟩
+  | "C08" => some ⟨DriverC08.St, {}, DriverC08.step⟩
   | _ => none
 
 partial def loop (h : IO.FS.Stream) (out : IO.FS.Stream) (S : Stepper) (st : S.σ) (n : Nat) : IO Unit := do
